@@ -258,6 +258,13 @@ def check(ctx):
             if k in ('write', 'rmw', 'addr') or (k == 'call'):
                 n_pvw += 1
                 ok = f.name in pv_helpers or (k == 'ctorinit')
+                if not ok and fld4 == '_pv_list_length' and k == 'write':
+                    wv_ = written_value(f, n)
+                    if wv_ is not None and const_of(strip_casts(wv_)) == 0:
+                        ok = True           # emptying a PV in place puts no move into it
+                if not ok and p.is_new_function(f):
+                    raise AnalysisBroken('C05: %s, a function the reference tree did not have, writes Info::%s; where its moves come '
+                                         'from is decided for the three PV helpers only' % (short(f.name), fld4))
                 ctx.ob('C05.R4.pv-writers', '%s:%s' % (short(f.name), fld4), ok,
                        'Info::%s is written only by clear_pv_list/set_new_pv_list/add_new_move_to_pv_list' % fld4,
                        site=f.loc(n))
